@@ -80,6 +80,8 @@ func exec(line string) (*res, error) {
 		return caseChoose(args)
 	case "langid":
 		return caseLangID(args)
+	case "otfpair":
+		return caseOtfPair(args)
 	}
 	return nil, fmt.Errorf("unknown case kind %q", kind)
 }
